@@ -275,7 +275,7 @@ fn shape_blocks(rep: &mut Report, rng: &mut Rng, n_rand: u64) {
 }
 
 pub fn run(ctx: &Ctx) -> (Report, String) {
-    let seeds: Vec<i64> = if ctx.tier == Tier::Thorough { (1..=50).collect() } else { vec![1, 2, 3] };
+    let seeds: Vec<i64> = if ctx.tier == Tier::Thorough { (1..=50).collect() } else { vec![1, 2, 3, 4, 5, 6] };
     let seeds: Vec<i64> = if ctx.scale_pct < 100 { seeds.into_iter().take(1).collect() } else { seeds };
     let mut jobs: Vec<(i64, i64, i64, bool)> = vec![];
     for s in &seeds {
@@ -285,7 +285,7 @@ pub fn run(ctx: &Ctx) -> (Report, String) {
             }
         }
     }
-    let n_rand = ctx.n(10_000, 1_000_000);
+    let n_rand = ctx.n(100_000, 2_000_000);
     let reps = par_shards(jobs.len() + 8, ctx.threads, |i| {
         let mut rep = Report::new();
         crate::mon::guarded(&mut rep, || J::obj().set("property", "C10").set("shard", i), |rep| {
